@@ -889,6 +889,12 @@ func runR_C14(c *Ctx) {
 		c.Rep.pass("R9")
 	}
 	runG9(c, "contains.canEqual", "derive.IsComparable")
+	// membership is decided by derived Equal, and unique finds candidates by derived Hash (whose map traversal relies on the
+	// sort and compare plugins): their rules are part of "pairwise non-Equal" / "same set under Equal"
+	equalCoreRules(c, false) // C14 is stated relative to derived Equal, whatever it considers equal
+	hashCoreRules(c, false)
+	sortLessRules(c)
+	compareCoreRules(c)
 	c.Rep.floor("R-guard", 11)
 }
 
